@@ -24,6 +24,9 @@ type Impl struct {
 	ChildProxy []ProbeProxy
 	Accepted   []int32 // values accepted by the property validator
 	Rejected   []int32
+	// Gate, when non-nil, holds every slow() body until the harness closes
+	// it (keeps the object's mailbox goroutine busy at a chosen moment).
+	Gate chan struct{}
 	// InSlow is the number of slow() bodies currently executing.
 	InSlow, MaxInSlow int
 }
@@ -83,6 +86,9 @@ func (p *Impl) Slow(x int32) (int32, error) {
 	p.InSlow++
 	if p.InSlow > p.MaxInSlow {
 		p.MaxInSlow = p.InSlow
+	}
+	if p.Gate != nil {
+		<-p.Gate
 	}
 	vrt.Yield()
 	vrt.Yield()
